@@ -148,6 +148,9 @@ def _needs(method):
     return False, False
 
 
+EXTREME_CONSTANTS = [10 ** 10, 2 ** 31, 2 ** 63, 2 ** 64 + 1, -2 ** 63, -10 ** 10, 10 ** 18 + 1]
+
+
 def enum_linear(tier):
     maxL = 4 if tier == 'quick' else 6
     for L in range(0, maxL + 1):
@@ -163,6 +166,8 @@ def enum_linear(tier):
                         consts = [0, 1]
                     elif need_const:
                         consts = list(range(-2, L + 3))
+                        if L in (0, 1, 3):
+                            consts += EXTREME_CONSTANTS       # far outside the range: the constraint is a constant
                     else:
                         consts = [None]
                     for op in ops:
@@ -192,7 +197,7 @@ def strat_linear(draw):
     if method == 'add_parity':
         const = draw(st.integers(0, 1))
     elif need_const:
-        const = draw(st.integers(-3, len(lits) + 3))
+        const = draw(st.integers(-3, len(lits) + 3) | st.sampled_from(EXTREME_CONSTANTS))
     else:
         const = None
     return {'cls': clsname, 'method': method, 'lits': lits, 'nv': nv, 'container': kind,
@@ -458,7 +463,7 @@ def strat_mapping(draw):
 SUBCHECKS = [
     SubCheck('linear', run_linear, strategy=strat_linear, enumerate_cases=enum_linear,
              quick=3000, thorough=200000,
-             rule="every polarity pattern of 0..4 (thorough: 0..6) distinct literals x every builder method x operator x constant -2..L+2 x container(list/tuple/generator/range) x check x CNF/OPB, enumerated completely; plus Hypothesis lists with repeated/opposite literals; oracle = bit-parallel arithmetic on all 2^n assignments; non-trivial: >=2 literals and constant strictly inside (0,L)",
+             rule="every polarity pattern of 0..4 (thorough: 0..6) distinct literals x every builder method x operator x constant -2..L+2 (and, for 0, 1 and 3 literals, constants far outside the range: 2^31, 10^10, 2^63, 2^64+1, -2^63, ...) x container(list/tuple/generator/range) x check x CNF/OPB, enumerated completely; plus Hypothesis lists with repeated/opposite literals; oracle = bit-parallel arithmetic on all 2^n assignments; non-trivial: >=2 literals and constant strictly inside (0,L)",
              required_labels=['CNF', 'OPB', 'list', 'tuple', 'generator', 'range', 'const<0', 'const=0', 'const=n',
                               'const>n', 'empty-list', 'op!=', 'op<', 'op>', 'op==', 'op<=', 'op>=',
                               'repeated-literal', 'opposite-literal']),
